@@ -520,6 +520,34 @@ func (w *world) run(cond func() bool, deadline time.Duration) stopReason {
 			w.maxVirt = now
 		}
 		en := s.enabledTasks()
+		// held-back timer callbacks are passed over while anything else can run
+		if len(en) > 0 {
+			free := en[:0:0]
+			for _, t := range en {
+				// a timer that expires at the same instant as other events may be served well after them: some
+				// callbacks are held back for a seeded number of steps (a fresh callback is otherwise nearly always first)
+				if t.isCB && !t.holdDrawn {
+					t.holdDrawn = true
+					if s.holdPPM > 0 && s.sched.chance(s.holdPPM) {
+						t.hold = 1 + s.sched.intn(48)
+					}
+				}
+				if t.hold > 0 {
+					t.hold--
+					if t.hold > 0 {
+						continue
+					}
+				}
+				free = append(free, t)
+			}
+			if len(free) == 0 {
+				for _, t := range en {
+					t.hold = 0
+				}
+				free = en
+			}
+			en = free
+		}
 		_, hasNet := w.net.nextTime()
 		due := false
 		if hasNet {
@@ -1126,6 +1154,7 @@ func bucket(n int) int {
 func (w *world) setup(cfg *runConfig) {
 	w.cfg = cfg
 	w.sim.yieldPPM = cfg.YieldPPM
+	w.sim.holdPPM = cfg.SwitchPPM / 2
 	for side := 0; side < 2; side++ {
 		name := []string{"A", "B"}[side]
 		ep := &endpoint{w: w, side: side, name: name, cfg: cfg.Side[side], streams: map[uint16]*simStream{}}
